@@ -19,7 +19,7 @@ TEXT = {
                    "the stream of one generator object under mixed groupings of random() / random_vec() calls, a third build with g++ (behaviour the standard leaves to the compiler), "
                    "plus a purity monitor (thread / process / heap-history digests, ltrace+strace showing no RNG, clock or entropy call) whose target runs every site where the library draws random numbers "
                    "(default init() of both solver bases, the complex-shift probe vector, expand_basis first and later tries; reach is reported and required), and a solver-level stream oracle: a recording "
-                   "operator sees the default start vector (stream of seed 0) and every first-try restart vector (stream of seed 2i).",
+                   "operator sees the default start vector (stream of seed 0) and every first-try restart vector (stream of seed 2i), over 1-3 default init()/compute() sessions on one solver object and with several solvers of one instantiation calling init() at the same time.",
         design_ref="DESIGN.md section 3, C19",
         level_note=NOTE_COMMON + " Platform independence is only observed on this machine.",
         technique="exhaustive runtime comparison with a reference recurrence + ltrace/strace purity monitor"),
@@ -43,7 +43,8 @@ TEXT = {
     "C10": dict(
         level_text="Exploration by direct calls of BKLDLT (and the dense wrappers built on it) on ~24k (quick) scenarios per run: sizes 1..80, eight matrix classes, shifts equal/near "
                    "diagonal entries, every triangle x storage order x plain/Map/block/expression presentation with the unused triangle set to NaN, structurally singular inputs and "
-                   "object reuse, 4 scalar types incl. complex Hermitian, under ASan+UBSan; residuals judged in long double.",
+                   "object reuse, right-hand sides that are dense, of the form (A - sigma I) w, or have exact zeros (unit vectors, leading / trailing / scattered support, the zero vector), "
+                   "4 scalar types incl. complex Hermitian, under ASan+UBSan; residuals judged in long double.",
         design_ref="DESIGN.md section 3, C10",
         level_note=NOTE_COMMON + " Nonsingularity of a generated input is decided by a long-double full-pivoting LU.",
         technique="runtime oracle (extended-precision residual, status and exception checks, NaN-poisoned unused triangle) over generated inputs, ASan+UBSan build"),
@@ -65,7 +66,7 @@ TEXT = {
         technique="runtime oracle (extended-precision residual monitor at the public accessors) over seeded histories + fixed regression corpus, ASan+UBSan build"),
     "C05": dict(
         level_text="Exploration: a consistency monitor applied after every compute() of ~3900 (quick) random call interleavings over 17 solver configurations: counts, status, eigenvectors(m) for every m, "
-                   "sorting order, value/column pairing, num_operations() against a counting operator wrapper, restarts (hook events) against maxit, NotComputed/empty before the first compute(). The same driver, built without a sanitizer, runs its cases under valgrind memcheck as well "
+                   "sorting order, value/column pairing, num_operations() against a counting operator wrapper, restarts (hook events) against maxit, NotComputed/empty before the first compute(); and after EVERY step of a history (a new init() after a compute, accessor reads, calls that threw) the accessors must describe one and the same set of pairs. The same driver, built without a sanitizer, runs its cases under valgrind memcheck as well "
                    "(definedness of every value that reaches a branch or an address).",
         design_ref="DESIGN.md section 3, C05",
         level_note=NOTE_COMMON,
@@ -73,7 +74,7 @@ TEXT = {
     "C06": dict(
         level_text="Exploration: history checker comparing, bit for bit, the observed init(v); compute(args) on a fresh solver, on a solver reused after a random pre-history (incl. non-converging and "
                    "throwing computes - thrown at once, thrown late: an unsupported sorting rule is rejected only after the iteration, and thrown from the inside: a dense eigen kernel that gives up at a guarded failpoint) and on a second solver sharing the operator object; operator probed "
-                   "with a fixed vector before/after compute() and after every step of the pre-history; every sampled case run again alone in a fresh process (digest comparison with the run inside the worker's sequence). 3000 (quick) triples over 17 configurations.",
+                   "with a fixed vector before/after compute() and after every step of the pre-history; every sampled case run again alone in a fresh process (digest comparison with the run inside the worker's sequence); the C library's generators are interposed and a call from library code is a finding. 3000 (quick) triples over 17 configurations.",
         design_ref="DESIGN.md section 3, C06",
         level_note=NOTE_COMMON + " Davidson / PartialSVD reuse is covered by C15 / C16.",
         technique="runtime history checker (bitwise snapshot comparison, operator probe), ASan+UBSan build; valgrind memcheck on the same driver"),
@@ -94,10 +95,11 @@ TEXT = {
     "C20": dict(
         level_text="Exploration over schedules under ThreadSanitizer: 36 (quick) / ~1000 (thorough) launches of 2..16 threads running permuted task lists over all solver configurations with private and "
                    "shared-const operators (Sym, Herm and Gen product wrappers) and injected yields; zero TSan reports and bitwise agreement with sequential results; overlap of task executions is measured and reported. "
-                   "Every case is run again alone in a fresh process and its digest compared with the one produced inside the worker's sequence (which starts with a prelude of much larger problems): hidden process-wide state.",
+                   "Every case is run again alone in a fresh process and its digest compared with the one produced inside the worker's sequence (which starts with a prelude of much larger problems): hidden process-wide state. The third build also runs Davidson (dense / sparse wrapper shared by the threads; generic and decoupled-coordinate matrices), "
+                   "PartialSVDSolver and LOBPCGSolver as tasks, and every build interposes the C library's generators (rand, random, *rand48, srand): a call from library code is a finding (they sit behind a lock, so TSan is silent about them).",
         design_ref="DESIGN.md section 3, C20",
         level_note=NOTE_COMMON,
-        technique="ThreadSanitizer + bitwise concurrent-vs-sequential comparison over randomized thread launches"),
+        technique="ThreadSanitizer + bitwise concurrent-vs-sequential comparison over randomized thread launches + interposed libc generators"),
     "C07": dict(
         level_text="Exploration with an online invariant checker installed at the guarded hook: ~100000 (quick) hook events per run over solver runs of 11 configurations (every spectral transformation "
                    "and inner product) and over the Arnoldi/Lanczos classes driven directly through restart sequences (exact and arbitrary, single and double shifts); each event is judged against an "
@@ -126,13 +128,15 @@ TEXT = {
         level_text="Exploration over the enumerated configuration space of the 16 wrapper classes (~150 instantiations incl. all 64 SymShiftInvert combinations, both storage-index types, three scalar "
                    "types) at sizes 1, 2 and random n: extended-precision reference comparison of every documented operation, byte-identical outputs under NaN / junk poisoning of the triangle the "
                    "wrapper must not read, every wrapper (both sides of SymShiftInvert) also constructed on a block of a larger matrix, a strided Map, a contiguous Map and an expression (dense) "
-                   "or on uncompressed storage, a Map of the compressed arrays, an inner panel of a wider matrix and an expression (sparse), under ASan.",
+                   "or on uncompressed storage, a Map of the compressed arrays, an inner panel of a wider matrix and an expression (sparse) - through a Ref of the caller and handed to the constructor as they are "
+                   "(block, inner-stride map, expressions: the wrapper's own Ref must own the evaluated copy) - and every real shift-solve wrapper and SymShiftInvert solved with the shift next to an eigenvalue "
+                   "(cond up to 1e12) and a right-hand side (A - sigma I) y0: backward stability whatever the conditioning; under ASan.",
         design_ref="DESIGN.md section 3, C11",
         level_note=NOTE_COMMON,
         technique="runtime oracle (extended-precision reference + metamorphic triangle poisoning) over enumerated template configurations, ASan+UBSan build"),
     "C12": dict(
         level_text="Exhaustive sweep of the stated finite box: ~41000 constructor calls over 17 solver configurations + Davidson + PartialSVD + LOBPCG for n = 1..12 and (nev, ncv) in [-2, n+3]^2, all nine "
-                   "rules as selection and sorting on every class, zero start vectors, sigma = 0, every wrapper constructor with every shape up to 4x4; exact exception type, allocated-bytes monitor around "
+                   "rules as selection and sorting on every class in three object states (after init(), after a converged compute() without init(), after a compute() that ran out of iterations), zero start vectors, sigma = 0, every wrapper constructor with every shape up to 4x4; exact exception type, allocated-bytes monitor around "
                    "each rejected call, LeakSanitizer, and bitwise fresh-vs-reused comparison after each rejected call.",
         design_ref="DESIGN.md section 3, C12",
         level_note=NOTE_COMMON + " The documented predicates are taken from the class documentation; general product wrappers legitimately accept rectangular input.",
